@@ -17,6 +17,7 @@ import (
 	"time"
 
 	"github.com/sarchlab/akita/v4/sim"
+	"github.com/sarchlab/akita/v4/tracing"
 	"github.com/sarchlab/mgpusim/v4/amd/benchmarks"
 	"github.com/sarchlab/mgpusim/v4/amd/driver"
 	"github.com/sarchlab/mgpusim/v4/amd/samples/runner"
@@ -59,10 +60,15 @@ type runDesc struct {
 	// between simulations (package-level variables, caches, id generators,
 	// process ids) differs for repetitions 2.. from a fresh process.
 	Reps int `json:"repetitions_in_one_process,omitempty"`
+	// CopyEndStallUS > 0: a tracer attached to the Driver (like the runner's own
+	// kernel-time tracer) sleeps this many microseconds when the task of a
+	// host<->device copy command ends, i.e. the host holds the engine goroutine
+	// right where the driver reports the command complete.
+	CopyEndStallUS int `json:"stall_us_at_copy_command_end,omitempty"`
 }
 
 func (r runDesc) hostKey() string {
-	return fmt.Sprintf("P%d|cpus=%s|gogc=%s|race=%v|fam=%s|delays=%v|par=%v|reps=%d", r.GOMAXPROCS, r.CPUs, r.GOGC, r.Race, r.Family, r.Delays, r.Parallel, r.Reps)
+	return fmt.Sprintf("P%d|cpus=%s|gogc=%s|race=%v|fam=%s|delays=%v|par=%v|reps=%d|copystall=%d", r.GOMAXPROCS, r.CPUs, r.GOGC, r.Race, r.Family, r.Delays, r.Parallel, r.Reps, r.CopyEndStallUS)
 }
 
 type childJob struct {
@@ -101,6 +107,9 @@ type childResult struct {
 	EngineStalls   int64            `json:"engine_stalls"`
 	NotifyInEvent  int64            `json:"completions_notified_inside_event"`
 	SQLite         string           `json:"sqlite"`
+	Copies         []copyRec        `json:"copies,omitempty"`            // copy hand-off programs: one record per observed blocking copy
+	CopyEnds       map[string]int64 `json:"copy_command_ends,omitempty"` // every copy command of the run, by "<command>|<last reply>"
+	CopyEndStalls  int64            `json:"copy_end_stalls,omitempty"`
 	GoMaxProcs     int              `json:"gomaxprocs_seen"`
 	NumCPU         int              `json:"numcpu_seen"`
 }
@@ -288,6 +297,103 @@ func (m *monitor) Func(ctx sim.HookCtx) {
 }
 
 // ---------------------------------------------------------------------------
+// copyTracer is a tracing.Tracer on the Driver. It observes, at the driver's
+// tracing boundary, which reply was the last one the driver received for every
+// host<->device copy command (the requests of a command are "req_out" tasks
+// whose parent is the command's task), and it can hold the engine goroutine
+// for a moment when a copy command's task ends (where logCmdComplete fires).
+
+type copyTracer struct {
+	mu        sync.Mutex
+	cmdWhat   map[string]string // command task id -> command type
+	reqWhat   map[string]string // request task id -> request type
+	reqParent map[string]string // request task id -> command task id
+	lastReply map[string]string // command task id -> type of the request whose reply arrived last
+	ends      map[string]int64  // "<command>|<last reply>" -> count
+	lastEnd   [2]string         // most recent copy command that ended: type, last reply
+	stallUS   int
+	stalls    atomic.Int64
+}
+
+func newCopyTracer(stallUS int) *copyTracer {
+	return &copyTracer{cmdWhat: map[string]string{}, reqWhat: map[string]string{}, reqParent: map[string]string{},
+		lastReply: map[string]string{}, ends: map[string]int64{}, stallUS: stallUS}
+}
+
+func (t *copyTracer) StartTask(task tracing.Task) {
+	t.mu.Lock()
+	switch task.What {
+	case "*driver.MemCopyD2HCommand", "*driver.MemCopyH2DCommand":
+		t.cmdWhat[task.ID] = task.What
+	case "*protocol.FlushReq", "*protocol.MemCopyD2HReq", "*protocol.MemCopyH2DReq":
+		// the driver starts the request tasks of a copy command before the
+		// command's own task, so the parent may not be known yet
+		t.reqWhat[task.ID] = task.What
+		t.reqParent[task.ID] = task.ParentID
+	}
+	t.mu.Unlock()
+}
+
+func (t *copyTracer) StepTask(tracing.Task)          {}
+func (t *copyTracer) AddMilestone(tracing.Milestone) {}
+
+func (t *copyTracer) EndTask(task tracing.Task) {
+	t.mu.Lock()
+	isCmd := false
+	if what, ok := t.reqWhat[task.ID]; ok {
+		t.lastReply[t.reqParent[task.ID]] = what
+		delete(t.reqWhat, task.ID)
+		delete(t.reqParent, task.ID)
+	} else if what, ok := t.cmdWhat[task.ID]; ok {
+		isCmd = true
+		last := t.lastReply[task.ID]
+		t.ends[what+"|"+last]++
+		t.lastEnd = [2]string{what, last}
+		delete(t.cmdWhat, task.ID)
+		delete(t.lastReply, task.ID)
+	}
+	t.mu.Unlock()
+	if isCmd && t.stallUS > 0 {
+		t.stalls.Add(1)
+		time.Sleep(time.Duration(t.stallUS) * time.Microsecond)
+	}
+}
+
+// last returns the type and the last reply of the copy command that ended most
+// recently (called by the application right after its blocking copy returned).
+func (t *copyTracer) last() (string, string) {
+	t.mu.Lock()
+	defer t.mu.Unlock()
+	return t.lastEnd[0], t.lastEnd[1]
+}
+
+// copyRec is one blocking copy observed by a copy hand-off program.
+type copyRec struct {
+	Round       int    `json:"round"`
+	Op          string `json:"op"` // "d2h-after-kernel", "h2d-after-kernel", "d2h-check"
+	GPU         int    `json:"gpu"`
+	KernelGPU   int    `json:"kernel_gpu"`
+	Size        int    `json:"size"`
+	CompletedOn string `json:"completed_on"` // last reply the driver received for the command
+	Immediate   string `json:"sha_immediately_after_return,omitempty"`
+	Settled     string `json:"sha_after_quiescent_point,omitempty"`
+	Expected    string `json:"sha_expected,omitempty"`
+}
+
+// childEnv is what a workload may use of the harness.
+type childEnv struct {
+	mon    *monitor
+	tracer *copyTracer
+	res    *childResult
+}
+
+// settle waits (bounded) until runAsync is back at its select and the engine
+// goroutine has run out of events and exited: a quiescent point.
+func (e *childEnv) settle() {
+	e.mon.hold(func() bool { return e.mon.asyncSettled() && !e.mon.engineRunning() })
+}
+
+// ---------------------------------------------------------------------------
 // wrapper benchmark: inner program, then read back every live buffer
 
 type wrapper struct {
@@ -412,7 +518,9 @@ func runOnce(job childJob, pass int) *childResult {
 	}
 
 	res := &childResult{GoMaxProcs: runtime.GOMAXPROCS(0), NumCPU: runtime.NumCPU()}
-	inner := makeWorkload(c, rn)
+	tr := newCopyTracer(r.CopyEndStallUS)
+	tracing.CollectTrace(d, tr)
+	inner := makeWorkload(c, rn, &childEnv{mon: mon, tracer: tr, res: res})
 	w := &wrapper{inner: inner, d: d, eng: rn.Engine(), res: res}
 	rn.AddBenchmark(w)
 
@@ -435,6 +543,13 @@ func runOnce(job childJob, pass int) *childResult {
 	res.Goscheds = mon.goscheds.Load()
 	res.EngineStalls = mon.stalls.Load()
 	res.NotifyInEvent = mon.notifyInEvt.Load()
+	tr.mu.Lock()
+	res.CopyEnds = map[string]int64{}
+	for k, v := range tr.ends {
+		res.CopyEnds[k] = v
+	}
+	tr.mu.Unlock()
+	res.CopyEndStalls = tr.stalls.Load()
 	after, _ := filepathGlob("akita_sim_*.sqlite3")
 	old := map[string]bool{}
 	for _, f := range before {
